@@ -222,7 +222,7 @@ func Run(sc Scenario) Result {
 			err = b.Reopen(ctx)
 		case "failed":
 			err = failingCall(b, sc.Fail)
-			if err == nil && sc.Fail != "send-precancelled" { // a Send whose pipelines all complete may report success although its context is done
+			if err == nil && !strings.HasSuffix(sc.Fail, "-precancelled") { // a call may well succeed although its context is done (a Send whose pipelines all complete, a removal)
 				err = fmt.Errorf("harness: the call %s was expected to fail", sc.Fail)
 			} else {
 				err = nil
@@ -422,6 +422,22 @@ func failingCall(b *eventlogger.Broker, which string) error {
 		cctx, cancel := context.WithCancel(ctx)
 		cancel()
 		_, err = b.Send(cctx, "inner", "x")
+	case "rpan-precancelled", "removenode-precancelled", "reopen-precancelled":
+		// a caller that has given up already: whatever the call does with that, it returns and leaves the Broker usable
+		cctx, cancel := context.WithCancel(ctx)
+		cancel()
+		b.RegisterNode("fmt3", &eventlogger.JSONFormatter{})
+		b.RegisterNode("out3", &sink{})
+		b.RegisterPipeline(eventlogger.Pipeline{PipelineID: "spare", EventType: "spare", NodeIDs: []eventlogger.NodeID{"fmt3", "out3"}})
+		b.RegisterNode("spare-node", &sink{})
+		switch which {
+		case "rpan-precancelled":
+			_, err = b.RemovePipelineAndNodes(cctx, "spare", "spare")
+		case "removenode-precancelled":
+			err = b.RemoveNode(cctx, "spare-node")
+		default:
+			err = b.Reopen(cctx)
+		}
 	case "send-threshold-unmet":
 		b.SetSuccessThreshold("inner", 5)
 		_, err = b.Send(ctx, "inner", "x")
@@ -434,7 +450,8 @@ func failingCall(b *eventlogger.Broker, which string) error {
 var FailingCalls = []string{"rpan-unknown-pipeline", "rpan-unknown-type", "rpan-empty", "rpan-twice", "removepipeline-unknown-type", "removepipeline-empty",
 	"removenode-unknown", "removenode-inuse", "removenode-empty", "registernode-empty", "registernode-deny", "registernode-badpolicy",
 	"registerpipeline-unknown-node", "registerpipeline-malformed", "registerpipeline-empty", "registerpipeline-deny", "registerpipeline-badpolicy",
-	"threshold-negative", "threshold-empty", "thresholdsinks-negative", "thresholdsinks-empty", "send-unknown-type", "send-precancelled", "send-threshold-unmet"}
+	"threshold-negative", "threshold-empty", "thresholdsinks-negative", "thresholdsinks-empty", "send-unknown-type", "send-precancelled", "send-threshold-unmet",
+	"rpan-precancelled", "removenode-precancelled", "reopen-precancelled"}
 
 // Scenarios enumerates operation x re-entering callback x pending groups x parked writer.
 func Scenarios() []Scenario {
